@@ -137,8 +137,15 @@ class Module:
         clsname = None
         for i, p in enumerate(parts):
             found = None
+            want_setter = p.endswith('@setter')
+            p = p[:-7] if want_setter else p
             for n in self._walk_defs(body):
                 if isinstance(n, (ast.FunctionDef, ast.ClassDef)) and n.name == p:
+                    if isinstance(n, ast.FunctionDef):
+                        is_setter = any(isinstance(d, ast.Attribute) and d.attr == 'setter'
+                                        for d in n.decorator_list)
+                        if is_setter != want_setter:
+                            continue
                     found = n
                     break
             if found is None:
@@ -166,8 +173,14 @@ class Module:
         c = self.classes.get(clsname)
         if c is None:
             return None
+        want_setter = name.endswith('@setter')
+        nm = name[:-7] if want_setter else name
         for n in c.body:
-            if isinstance(n, ast.FunctionDef) and n.name == name:
+            if isinstance(n, ast.FunctionDef) and n.name == nm:
+                is_setter = any(isinstance(d, ast.Attribute) and d.attr in ('setter', 'deleter')
+                                for d in n.decorator_list)
+                if is_setter != want_setter:
+                    continue
                 return self, c, n
         for b in c.bases:
             bm, bn = self.resolve_class(b)
@@ -1052,6 +1065,9 @@ class Engine:
                 return r
         if is_num(a) and is_num(b):
             return self.num_binop(op, a, b, st, node)
+        if (a.k == 'obj' and (is_num(b) or b.k == 'obj')) or (b.k == 'obj' and is_num(a)):
+            # arithmetic on an opaque value stays opaque
+            return [(st, V('obj', oid='arith!%d' % next(self.counter)))]
         if isinstance(op, ast.Add) and a.k in ('list', 'tuple') and a.k == b.k \
                 and a.items is not None and b.items is not None:
             return [(st, V(a.k, items=a.items + b.items))]
@@ -1255,6 +1271,10 @@ class Engine:
             if o.k == 'opt':
                 return o.extra['isnone']
             return z3.BoolVal(False)
+        for (p, q) in ((a, b), (b, a)):
+            if p.k == 'ref' and p.oid == 'main' and q.k == 'class' and q.py in ('RtMain', 'NrtMain'):
+                rt = z3.Bool('main.__is_rt')
+                return rt if q.py == 'RtMain' else z3.Not(rt)
         if a.k == 'ref' and b.k == 'ref':
             if a.extra and 'idz' in a.extra and b.extra and 'idz' in b.extra:
                 return a.extra['idz'] == b.extra['idz']
@@ -1387,6 +1407,12 @@ class Engine:
             r = h(self, obj, name, st, node)
             if r is not None:
                 return r
+        if obj.k == 'ref' and obj.oid == 'main' and name == 'elapsed_time':
+            def now(eng, args, kwargs, st, node):
+                v = eng.fresh_val('real', 'elapsed')
+                st.trace.append(('time', v.z))
+                return [(st, v)]
+            return [(st, V('func', py=('spec', now)))]
         if obj.k == 'ref':
             fields = st.objs.setdefault(obj.oid, {})
             if name in fields:
@@ -1398,7 +1424,10 @@ class Engine:
             # method / class attribute
             m = self.find_method(obj.cls, name)
             if m is not None:
-                return [(st, self.bound_method(m, obj))]
+                bm = self.bound_method(m, obj)
+                if bm.extra['mkind'] == 'property':
+                    return self.call(bm, [], {}, st, node)
+                return [(st, bm)]
             ca = self.find_class_attr(obj.cls, name)
             if ca is not None:
                 return [(st, ca)]
@@ -1413,6 +1442,8 @@ class Engine:
                 fields[name] = v
                 return [(st, v)]
             m = self.find_method(obj.py, name)
+            if m is None and obj.extra and obj.extra.get('mod'):
+                m = Module.get(self.repo, obj.extra['mod']).class_method(obj.py, name)
             if m is not None:
                 return [(st, self.bound_method(m, obj))]
             ca = self.find_class_attr(obj.py, name)
@@ -1429,6 +1460,30 @@ class Engine:
                     return [(st, obj.extra[name])]
                 if obj.items:
                     return [(st, obj.items[0])]
+        if obj.k == 'obj':
+            if name in ('notify', 'notify_all', 'acquire', 'release', 'set', 'clear',
+                        'start', 'join', 'add', 'remove', 'discard', 'append',
+                        'debug', 'info', 'warning', 'error', 'critical', 'exception',
+                        'wait', 'cancel', 'close'):
+                oid = obj.oid
+                def effect(eng, args, kwargs, st, node, _n=name, _o=oid):
+                    if _o is None or not str(_o).endswith('_logger'):
+                        st.trace.append(('call', str(_o), _n, tuple(args)))
+                    h = eng.contract.hooks.get('effect')
+                    if h:
+                        r = h(eng, _o, _n, args, kwargs, st, node)
+                        if r is not None:
+                            return r
+                    return [(st, NONE)]
+                return [(st, V('func', py=('spec', effect)))]
+            if name in ('is_alive', 'is_set', 'locked'):
+                def q(eng, args, kwargs, st, node, _n=name, _o=obj.oid):
+                    return [(st, vbool(z3.Bool('%s.%s!%d' % (_o, _n, next(eng.counter)))))]
+                return [(st, V('func', py=('spec', q)))]
+        if obj.k == 'obj' and not name.startswith('__'):
+            # attribute of an opaque object: another opaque object
+            sub = '%s.%s' % (obj.oid, name)
+            return [(st, V('obj', oid=sub, z=z3.Const(sub, VV.Any)))]
         if obj.k == 'func' and name == '__name__':
             return [(st, vstr(obj.py[-1] if isinstance(obj.py[-1], str) else '?'))]
         raise Unsupported(node, 'attribute .%s of %r' % (name, obj))
@@ -1455,6 +1510,8 @@ class Engine:
     def find_class_attr(self, clsname, name):
         mod = self.class_module(clsname)
         if mod is None:
+            return None
+        if clsname not in mod.classes:
             return None
         r = mod.class_attr(clsname, name)
         if r is None:
@@ -1489,6 +1546,8 @@ class Engine:
         if p == '<libsc3>':
             if name == 'main':
                 return V('ref', cls='Main', oid='main')
+            if name in ('RtMain', 'NrtMain'):
+                return V('class', py=name)
             raise Unsupported(node, '_libsc3.%s' % name)
         if p.startswith('ext:'):
             ext = p[4:]
@@ -1513,6 +1572,20 @@ class Engine:
             r = h(self, obj, name, v, st, node)
             if r is not None:
                 return r
+        if obj.k == 'ref' and self.contract.field_kind(obj.cls, name) is None:
+            m = self.find_method(obj.cls, name + '@setter')
+            if m is not None:
+                bm = self.bound_method(m, obj)
+                bm.extra['mkind'] = 'method'
+                mod_, cdef_, fdef_ = m
+                bm.py = ('method', mod_.relpath, cdef_.name, fdef_.name + '@setter')
+                outs = []
+                for st1, r in self.call(bm, [v], {}, st, node):
+                    if isinstance(r, Raised):
+                        outs.append(('raise', st1, r.exc))
+                    else:
+                        outs.append(('next', st1))
+                return outs
         if obj.k == 'ref':
             st.objs.setdefault(obj.oid, {})[name] = v
             st.ghost = dict(st.ghost)
@@ -1687,8 +1760,7 @@ class Engine:
         from . import lib
         if name in ('int', 'float', 'bool', 'str', 'list', 'tuple', 'type', 'bytes', 'set', 'dict'):
             return lib.call_builtin(self, name, args, kwargs, st, node)
-        if name in EXC_BASES or self.cur_mod.exc_base(name) is not None or \
-                self.is_exception_class(name):
+        if name in EXC_BASES or self.is_exception_class(name, f):
             extra = {}
             return [(st, V('exc', cls=name, items=list(args),
                            extra={'line': getattr(node, 'lineno', None)}))]
@@ -1697,14 +1769,62 @@ class Engine:
             r = h(self, f, args, kwargs, st, node)
             if r is not None:
                 return r
+        nt = self.namedtuple_fields(f)
+        if nt is not None:
+            mod_, fields = nt
+            oid = 'new!%s!%d' % (name, next(self.counter))
+            vals = {}
+            pos = list(args)
+            for i, (fname, dflt) in enumerate(fields):
+                if i < len(pos):
+                    vals[fname] = pos[i]
+                elif fname in kwargs:
+                    vals[fname] = kwargs[fname]
+                elif dflt is not None:
+                    saved = self.cur_mod
+                    self.cur_mod = mod_
+                    try:
+                        vals[fname] = self.eval(dflt, St())[0][1]
+                    finally:
+                        self.cur_mod = saved
+                else:
+                    return [(st, Raised(self.make_exc('TypeError', node=node)))]
+            if len(pos) > len(fields):
+                return [(st, Raised(self.make_exc('TypeError', node=node)))]
+            st.objs[oid] = vals
+            return [(st, V('ref', cls=name, oid=oid, extra={'namedtuple': [f_ for f_, _ in fields]}))]
+        if name in self.contract.opts.get('opaque_construct', ()):
+            st.trace.append(('new', name, tuple(args)))
+            return [(st, V('obj', oid='new!%s!%d' % (name, next(self.counter))))]
         raise Unsupported(node, 'constructor %s' % name)
 
-    def is_exception_class(self, name):
+    def namedtuple_fields(self, f):
+        modp = (f.extra or {}).get('mod')
+        mod = Module.get(self.repo, modp) if modp else self.class_module(f.py)
+        if mod is None or f.py not in mod.classes:
+            return None
+        c = mod.classes[f.py]
+        ok = any((isinstance(b, ast.Attribute) and b.attr == 'NamedTuple') or
+                 (isinstance(b, ast.Name) and b.id == 'NamedTuple') for b in c.bases)
+        if not ok:
+            return None
+        fields = []
+        for n in c.body:
+            if isinstance(n, ast.AnnAssign) and isinstance(n.target, ast.Name):
+                fields.append((n.target.id, n.value))
+        return mod, fields
+
+    def is_exception_class(self, name, f=None):
         n = name
+        mod = self.cur_mod
+        if f is not None and f.extra and f.extra.get('mod'):
+            mod = Module.get(self.repo, f.extra['mod'])
         for _ in range(10):
-            b = self.cur_mod.exc_base(n)
+            if n in EXC_BASES:
+                return True
+            b = mod.exc_base(n)
             if b is None:
-                return n in EXC_BASES
+                return False
             n = b
         return False
 
@@ -1721,8 +1841,9 @@ class Engine:
             return c.apply_at_call(self, selfv, args, kwargs, st, node)
         if policy == 'opaque':
             self.opaque_calls.add(qual)
-            kind = self.contract.opaque_kinds.get(qual, 'obj')
-            return [(st, self.fresh_val(kind, short))]
+            kind = self.contract.opaque_kinds.get(qual, self.contract.opaque_kinds.get(short, 'none'))
+            st.trace.append(('call', short, tuple(args)))
+            return [(st, self.fresh_val(kind, short) if kind != 'none' else NONE)]
         if callable(policy):
             return policy(self, selfv, args, kwargs, st, node)
         raise Unsupported(node, 'call of %s: no contract and not inlinable' % qual)
